@@ -28,6 +28,7 @@ class FakeJob:
         self.task = FakeTask()
         self.args = ((i,), {})
         self.eval_hash = f"eval{i}"
+        self.execution = None
 
     def get_options(self):
         return {}
@@ -58,6 +59,9 @@ class FakeScheduler:
     def log(self, *a, **k):
         pass
 
+    def add_job_tags(self, job, tags):
+        pass
+
 
 # ------------------------------------------------------------------------------------------------ docker
 def docker_harness(root):
@@ -75,14 +79,58 @@ def docker_harness(root):
         for cid, job in list(pending.items()):
             yield {"jobId": cid, "status": mod.SUCCEEDED, "logs": ""}
 
-    patches = {"submit_task": submit_task, "iter_job_status": iter_job_status, "parse_job_result": lambda scratch, job: (1, True),
-               "package_code": lambda *a, **k: None}
+    patches = [(mod, "submit_task", submit_task), (mod, "iter_job_status", iter_job_status), (mod, "parse_job_result", lambda scratch, job: (1, True)),
+               (mod, "package_code", lambda *a, **k: None)]
     ex_cls = mod.DockerExecutor
     funcs = [ex_cls._start, ex_cls.stop, ex_cls._monitor, ex_cls._process_job_status, ex_cls._submit]
-    return mod, conf, patches, funcs, lambda ex: ex._thread
+    return {"mod": mod, "cls": "DockerExecutor", "conf": conf, "patches": patches, "funcs": funcs, "thread": lambda ex: ex._thread, "shim_modules": [mod],
+            "pending": lambda ex: len(ex._pending_jobs), "running": lambda ex: ex._is_running}
 
 
-HARNESSES = {"docker": docker_harness}
+# ------------------------------------------------------------------------------------------------ aws batch
+def batch_harness(root, arrayer=False):
+    """AWSBatchExecutor against the in-process fake of the Batch API (checks/c32.FakeBatch); every submitted Batch job is reported SUCCEEDED
+    as soon as it is described. `arrayer=True` keeps the job arrayer (and its own monitor thread) in the loop."""
+    import redun.executors.aws_batch as mod
+    import redun.job_array as ja
+    from redun.config import Config
+    from redun.executors import aws_utils
+
+    from checks.c32 import FakeBatch
+
+    conf = Config({"e": {"image": "img", "queue": "q1", "s3_scratch": os.path.join(root, "scratch"), "job_monitor_interval": "1", "code_package": "False",
+                         "min_array_size": "2" if arrayer else "0", "job_stale_time": "1.5", "aws_region": "us-west-2",
+                         "debug_scratch": os.path.join(root, "debug")}})["e"]
+    fb = FakeBatch()
+    orig_describe = fb.describe
+
+    def describe(jid):
+        d = orig_describe(jid)
+        if d["status"] in ("RUNNABLE", "PENDING", "RUNNING"):
+            for c in fb.jobs[jid].get("children") or [jid]:
+                fb.jobs[c]["status"] = "SUCCEEDED"
+            d = orig_describe(jid)
+        return d
+
+    fb.describe = describe
+    patches = [(aws_utils, "get_aws_client", lambda service, aws_region=None: fb), (aws_utils, "get_aws_user", lambda *a, **k: "user"),
+               (mod, "get_or_create_job_definition", lambda *a, **k: {"jobDefinitionArn": "arn:jd"}), (mod, "parse_job_logs", lambda *a, **k: iter(())),
+               (mod, "parse_job_result", lambda scratch, job: (1, True)),
+               (mod, "submit_task", lambda image, queue, scratch, job, task, **kw: fb.submit_job(
+                   f"redun-job-{job.eval_hash}", queue, "arn", containerOverrides={"command": None},
+                   arrayProperties=({"size": kw["array_size"]} if kw.get("array_size") else None))),
+               (mod, "write_array_job_scratch_files", lambda *a, **k: None)]
+    ex_cls = mod.AWSBatchExecutor
+    funcs = [ex_cls._start, ex_cls.stop, ex_cls._monitor, ex_cls._process_job_status, ex_cls._submit, ex_cls._submit_single_job, ex_cls._submit_jobs]
+    shim_modules = [mod]
+    if arrayer:
+        funcs += [ja.JobArrayer.add_job, ja.JobArrayer.start, ja.JobArrayer.stop, ja.JobArrayer._monitor_stale_jobs, ex_cls._submit_array_job]
+        shim_modules.append(ja)
+    return {"mod": mod, "cls": "AWSBatchExecutor", "conf": conf, "patches": patches, "funcs": funcs, "thread": lambda ex: ex._thread,
+            "shim_modules": shim_modules, "pending": lambda ex: len(ex.pending_batch_jobs) + ex.arrayer.num_pending, "running": lambda ex: ex.is_running}
+
+
+HARNESSES = {"docker": docker_harness, "aws_batch": batch_harness, "aws_batch+arrayer": lambda root: batch_harness(root, arrayer=True)}
 
 
 def scenario(case, prefix):
@@ -94,12 +142,13 @@ def scenario(case, prefix):
     root = os.path.join(common.scratch_dir(), f"c10-{os.getpid()}")
     shutil.rmtree(root, ignore_errors=True)
     os.makedirs(root)
-    mod, conf, patches, funcs, get_thread = HARNESSES[case["executor"]](root)
+    H = HARNESSES[case["executor"]](root)
+    mod, conf, funcs, get_thread = H["mod"], H["conf"], H["funcs"], H["thread"]
     shim_threading, shim_time = th.make_shims()
-    saved = {k: getattr(mod, k) for k in list(patches) + ["threading", "time"]}
-    for k, v in patches.items():
-        setattr(mod, k, v)
-    mod.threading, mod.time = shim_threading, shim_time
+    todo = list(H["patches"]) + [(m, "threading", shim_threading) for m in H["shim_modules"]] + [(m, "time", shim_time) for m in H["shim_modules"]]
+    saved = [(m, k, getattr(m, k)) for m, k, _v in todo]
+    for m, k, v in todo:
+        setattr(m, k, v)
     th.instrument(*funcs)
     s = th.Sched(prefix, horizon=8000)
     fs = FakeScheduler(root)
@@ -107,12 +156,13 @@ def scenario(case, prefix):
     res = {}
 
     def main():
-        ex = getattr(mod, type_name(case["executor"]))("e", scheduler=fs, config=conf)
+        ex = getattr(mod, H["cls"])("e", scheduler=fs, config=conf)
         ex.set_scheduler(fs)
-        s.state_fn = lambda: (len(getattr(ex, "_pending_jobs", ())), getattr(ex, "_is_running", None), len(fs.reported))
+        s.state_fn = lambda: (H["pending"](ex), H["running"](ex), len(fs.reported))
         for j in jobs:
             ex.submit(j)
-            th.csleep(0.1)  # the scheduler thread goes back to its event loop between submissions
+            for _ in range(case.get("pause", 1)):
+                th.csleep(0.1)  # the scheduler thread goes back to its event loop between submissions (for `pause` turns of the other threads)
 
         def quiet():
             t = get_thread(ex)
@@ -125,8 +175,8 @@ def scenario(case, prefix):
     try:
         failure = s.run(main)
     finally:
-        for k, v in saved.items():
-            setattr(mod, k, v)
+        for m, k, v in saved:
+            setattr(m, k, v)
     if failure and failure[0] in ("divergence", "stuck"):
         raise th.ReplayDivergence(str(failure))
     viol = []
@@ -144,10 +194,6 @@ def scenario(case, prefix):
         viol.append((f"{name}:job-reported-twice", f"{dup}"))
     s.obs = [("reported", sorted(fs.reported)), ("fail", str(failure))]
     return s, {"viol": viol, "outcome": repr(s.obs)}
-
-
-def type_name(executor):
-    return {"docker": "DockerExecutor"}[executor]
 
 
 def explore_case(arg):
@@ -180,13 +226,19 @@ def run(ctx):
 
     bound = ctx.pick(2, 3)
     cap = 10**7
-    cases = [{"executor": e, "jobs": n} for e in HARNESSES for n in ctx.pick((2,), (2, 3))]
-    roots = ctx.pmap(explore_case, [(c, bound, cap, "roots") for c in cases], chunksize=1)
+    if ctx.quick:
+        cases = [({"executor": "docker", "jobs": 2, "pause": 1}, 2), ({"executor": "aws_batch", "jobs": 2, "pause": 3}, 1),
+                 ({"executor": "aws_batch", "jobs": 2, "pause": 1}, 1), ({"executor": "aws_batch+arrayer", "jobs": 2, "pause": 3}, 1)]
+    else:
+        cases = [({"executor": e, "jobs": n, "pause": pz}, 3 if e == "docker" else 2) for e in HARNESSES for n in (2, 3) for pz in (1, 3)]
+    case_bounds = list(cases)
+    roots = ctx.pmap(explore_case, [(c, b, cap, "roots") for c, b in cases], chunksize=1)
     check_harness_errors(roots)
     work = []
-    for c, r in zip(cases, roots):
+    for (c, b), r in zip(cases, roots):
         work.append((c, 0, cap, []))
-        work += [(c, bound, cap, pre) for pre in r["prefixes"]]
+        work += [(c, b, cap, pre) for pre in r["prefixes"]]
+    cases = [c for c, _b in cases]
     res = ctx.pmap(explore_case, ctx.rotate(work), chunksize=2)
     check_harness_errors(res)
     ctx.add_results(res)
@@ -198,11 +250,12 @@ def run(ctx):
     execs = sum(r["stats"]["executions"] for r in res)
     return {"coverage": {
         "states": len(states), "transitions": sum(r["ntrans"] for r in res), "traces_validated_against_impl": execs,
-        "preemption_bound": bound, "executors": sorted(HARNESSES), "distinct_outcomes": len(outcomes),
+        "preemption_bound": bound, "preemption_bound_per_case": [[c["executor"], c["jobs"], c["pause"], b] for c, b in case_bounds], "executors": sorted(HARNESSES), "distinct_outcomes": len(outcomes),
         "max_scheduling_points": max(r["stats"]["max_points"] for r in res), "exhaustive": True,
-        "rule": f"for each executor harness a scheduler thread submits 2 (thorough: also 3) jobs, going back to its loop in between, while the executor's "
-        f"real _start/_monitor/stop code runs in a real monitor thread; every schedule with <= {bound} preemptions at instruction-level points; the "
-        "container layer is a fake that reports every job it is asked about as succeeded; oracle: when the monitor thread has ended, every "
+        "rule": "for each executor harness (Docker; AWS Batch with and without the job arrayer's own thread) a scheduler thread submits 2 (thorough: also 3) "
+        "jobs, going back to its loop for `pause` turns in between, while the executor's real _start/_monitor/stop/_submit code runs in real monitor "
+        "threads; every schedule within the per-case preemption bound (see preemption_bound_per_case) at instruction-level points; the "
+        "container / Batch layer is a fake that reports every job it is asked about as succeeded; oracle: when the monitor thread has ended, every "
         "submitted job was reported exactly once, no monitor error, no deadlock",
         "samples": cases[:2],
     }, "assumptions": ["GIL bytecode interleaving; cloud/container APIs are in-process fakes; only executors listed in 'executors' are harnessed"]}
